@@ -405,6 +405,17 @@ def make_world(rng):
     add("broken", "undefined_macro", {"config": heavy, "macros": [{"name": "@x", "pattern": "mov"}], "pattern": ["@x", "@undefined"]}, li, stage="compile")
     add("broken", "bad_regex", {"config": {k: v for k, v in heavy.items() if k != "sections"}, "pattern": ["mov(", {"&cz": None}] if False else ["mov("]}, li, stage="match")
     add("broken", "capture_then_fail", {"config": heavy, "pattern": [{"mov": ["&a", "&b"]}, {"$or": []}]}, li, stage="compile")
+    # ---- a very large listing (more than 100 000 lines): only used by the two or three operations that make_history
+    # places on purpose, never by the families above (an operation on it costs a second or two).
+    # (a side generator, so that every other choice of the world stays what it was before this dimension existed)
+    rng_h = random.Random(int(util.digest(list(rng.getstate()[1][:16]))[:16], 16))
+    if rng_h.random() < 0.015:
+        block = [gen.gen_instruction(rng_h, addr_pool=targets) for _ in range(400)]
+        block = [b for b in block if b[0] not in ("hlt", "fxsave")]
+        text, _e = gen.render_listing(rng_h, block * rng_h.randrange(190, 230) + [("hlt", []), ("ret", [])], base=0x100000)
+        files[f"{d_in}a_huge.s"] = text
+        files[f"{d_rules}r_huge_tail.yaml"] = gen.dump_yaml({"pattern": ["hlt", "ret"]})
+        files[f"{d_rules}r_huge_none.yaml"] = gen.dump_yaml({"pattern": ["fxsave"]})
     return files, pool, listings, binaries, sorted(macro_docs)
 
 
@@ -551,6 +562,19 @@ def make_history(rng, world, with_faults):
     # histories end in a checked successful-looking operation of the focus family
     e = rng.choice(byfam[focus])
     ops.append(_match_op(rng, e, listings, binaries, mode=focus_mode))
+    huge = [k for k in files if k.endswith("a_huge.s")]
+    if huge:
+        rng_h = random.Random(int(util.digest(list(rng.getstate()[1][:16]))[:16], 16))
+        if rng_h.random() < 0.4:
+            rules_h = sorted(k for k in files if k.endswith(("r_huge_tail.yaml", "r_huge_none.yaml")))
+            for _ in range(rng_h.randrange(2, 4)):
+                at = rng_h.randrange(0, len(ops) + 1)
+                while at < len(ops) and ops[at].get("rematch"):
+                    at += 1
+                rel = rng_h.choice(rules_h)
+                ret, search, only = rng_h.choice(MODES)
+                ops.insert(at, {"op": "match", "rule": rel, "input": huge[0], "type": "assembly", "ret": ret, "search": search, "only_addr": only,
+                                "macros": None, "_tag": f"huge:{'tail' if 'tail' in rel else 'none'}:assembly:{ret}/{search}"})
     style = rng.random()
     if style < 0.15:
         for o in ops:  # the caller keeps ONE MatchConfig object and updates its fields per operation
